@@ -194,6 +194,7 @@ def run(seed=0, rounds=3):
         structural("add", lambda I, a, c: a._bin(I, ast.Add(), c, False), lambda a, c: a + c, [(x, "float"), (y, "float")])
         # alternative spellings (method / function forms, None in an index)
         b2 = rt((A, Bd), "bool")
+        structural("bool * bool", lambda I, a, c: a._bin(I, ast.Mult(), c, False), lambda a, c: a * c, [(b, "bool"), (b2, "bool")])
         structural(".neg", lambda I, a: M["neg"](I, a), lambda a: a.neg(), [(xi, "long")])
         structural("torch.neg", lambda I, a: F["torch.neg"](I, a), lambda a: torch.neg(a), F_)
         structural(".logical_not", lambda I, a: M["logical_not"](I, a), lambda a: a.logical_not(), [(b, "bool")])
